@@ -13,6 +13,7 @@ func init() {
 	vrt.Register("C02_text_only", TextOnly)
 	vrt.Register("C02_text_and_tags", TextAndTags)
 	vrt.Register("C02_string_literal", StringLiteral)
+	vrt.Register("C02_string_literal_escapes", StringLiteralEscapes)
 	vrt.Register("C02_bstring_literal", BStringLiteral)
 	vrt.Register("C02_tags_in_blocks", TagsInBlocks)
 	vrt.Register("C02_escape_sequences", EscapeSequences)
@@ -208,6 +209,17 @@ func StringLiteral() {
 	n := vrt.IntRange(0, max)
 	s := vrt.Bytes(n)
 	noNUL(s)
+	stringLiteral(s)
+}
+
+// longer contents over the characters that matter to the escape rule (runs of \" and \\)
+func StringLiteralEscapes() {
+	n := vrt.IntRange(0, 6+2*vrt.Tier())
+	stringLiteral(vrt.BytesIn(n, "\\\"a"))
+}
+
+func stringLiteral(s string) {
+	n := len(s)
 	// reference: left to right, \" is a quote; a bare quote would end the string early
 	val := ""
 	i := 0
